@@ -99,6 +99,36 @@ def connect_histories(ctx, n):
 K407 = set()     # cases in the domain of the listed finding connect-407-no-handover
 
 
+def stray_histories(ctx, n):
+    """sequential exchanges with ONE unsolicited response in between (a response when every request has been answered): it gets a placeholder transaction
+    of its own, and every later request must still be paired with its own response"""
+    rng = ctx.rng
+    out, meta = [], []
+    for _ in range(n):
+        N = rng.randint(2, 4)
+        pos = rng.randint(1, N - 1)          # the stray response comes after exchange pos-1
+        cfg = sconnp.cfg_str(p=rng.choice([0, 1, 9]), auto=rng.choice([0, 0, 1]))
+        ops = ["O"]
+        exp = []
+        for i in range(N):
+            if i == pos:
+                stray = b"HTTP/1.1 200 OK\r\nResp-Id: 900\r\nContent-Length: 2\r\n\r\nzz"
+                for piece in sconnp.cut(stray, sconnp.split_points(stray, rng, rng.choice(["whole", "random"]))):
+                    ops.append("S" + piece.hex())
+                exp.append((None, 900))
+            a, tr = sconnp.build_request(rng, i)
+            b, _ = sconnp.build_response(rng, i, head_method=(tr["method"] == b"HEAD"))
+            for piece in sconnp.cut(a, sconnp.split_points(a, rng, rng.choice(["whole", "random"]))):
+                ops.append("Q" + piece.hex())
+            for piece in sconnp.cut(b, sconnp.split_points(b, rng, rng.choice(["whole", "random"]))):
+                ops.append("S" + piece.hex())
+            exp.append((i, i))
+        ops.append("C")
+        out.append(sconnp.case(ops, cfg=cfg))
+        meta.append(exp)
+    return out, meta
+
+
 def histories(ctx, n):
     rng = ctx.rng
     out, meta = [], []
@@ -147,6 +177,8 @@ def check(ctx):
     cases, meta = histories(ctx, n)
     c2, m2 = connect_histories(ctx, n // 3)
     cases, meta = cases + c2, meta + m2
+    c3, m3 = stray_histories(ctx, n // 8)
+    cases, meta = cases + c3, meta + m3
     nmap = dict(zip(cases, meta))
     impl, model, verdicts, traces, crash = cp.correspond_and_oracle(ctx, cases)
     if crash:
@@ -158,7 +190,8 @@ def check(ctx):
     known = {k["id"]: k for k in vf.known_for(PROP)}
     keys = set()
     for i, c in enumerate(cases[:len(impl)]):
-        N = nmap[c]
+        exp_ids = nmap[c] if isinstance(nmap[c], list) else [(k, k) for k in range(nmap[c])]
+        N = len(exp_ids)
         dumps = [d for d in sconnp.tx_dumps(impl[i])]
         if ",auto=1," in c:
             # destroyed transactions leave the list: take each transaction as the TRANSACTION_COMPLETE callback saw it (ordered by creation)
@@ -186,8 +219,8 @@ def check(ctx):
                             sid = int(bytes.fromhex(val).split(b",")[0]) if val != "-" else None      # a random X-.. header may collide with X-Id (merged with ", ")
                         except ValueError:
                             sid = None
-                if rid != k or sid != k:
-                    problem = "transaction %d carries request id %s and response id %s" % (k, rid, sid)
+                if (rid, sid) != exp_ids[k]:
+                    problem = "transaction %d carries request id %s and response id %s, expected %s" % (k, rid, sid, exp_ids[k])
                     break
         conn = sconnp.final_dump(impl[i]).split(";")[0]
         fm = re.search(r"fl=([0-9a-f]+)", conn)
